@@ -3,25 +3,11 @@
    profiles, to its hand-written twin in Scalar.v.  A source edit that changes
    what one of these functions computes breaks exactly one lemma here. *)
 From Coq Require Import ZArith List String Bool Lia.
-From MV Require Import Ast Eval Scalar.
+From MV Require Import Ast Eval Scalar EquivDefs.
 From MV.Gen Require Import AstGen.
 Import ListNotations.
 Open Scope string_scope.
 Open Scope Z_scope.
-
-Definition FUEL : nat := 120.
-
-(* the crate's own scalar helpers, as seen by calls inside translated bodies *)
-Definition gen_funs (f : string) : option fn_ast :=
-  if String.eqb f "next_aligned" then Some helpers__next_aligned_ast
-  else if String.eqb f "next_capacity::<T>" then Some helpers__next_capacity_ast
-  else if String.eqb f "max_align::<T>" then Some helpers__max_align_ast
-  else if String.eqb f "make_layout::<T>" then Some helpers__make_layout_ast
-  else if String.eqb f "map_size_hint" then Some serde__map_size_hint_ast
-  else None.
-
-Definition lift {F} (o : option Z) : outcome F val :=
-  match o with Some z => Norm (VInt z) | None => Panic end.
 
 Section PureEquiv.
   Variable F W : Type.
@@ -50,10 +36,6 @@ Section PureEquiv.
       try (exfalso; pose proof (Z.mod_pos_bound n a); lia).
   Qed.
 
-  Lemma max_align_equiv w :
-    in_range (ealign cfg) ->
-    run helpers__max_align_ast [] w = (Norm (VInt (max_align cfg)), w).
-  Proof. intros _. reflexivity. Qed.
 
   Definition lift_layout (o : option (Z * Z)) : outcome F val :=
     match o with
@@ -75,14 +57,6 @@ Section PureEquiv.
     pose proof (Z.mod_pos_bound (c * esz cfg) W64).
     brk; try reflexivity; try lia.
   Qed.
-
-  (* map_size_hint takes an Option<usize> *)
-  Definition opt_val (h : option Z) : val :=
-    match h with Some n => VCtor "Some" [VInt n] | None => VCtor "None" [] end.
-
-  Lemma map_size_hint_equiv h w :
-    run serde__map_size_hint_ast [opt_val h] w = (Norm (VInt (map_size_hint h)), w).
-  Proof. destruct h; reflexivity. Qed.
 
   (* next_capacity is a policy: no twin, only the facts the properties need
      (C07: geometric growth, first allocation non-empty; C09: termination and
